@@ -2,8 +2,9 @@
    Only statements and `exact`; the proofs are in Proofs/C39.v.
    AES-GCM is abstract: [seal]/[open] are universally quantified and constrained by the stated premises
    (correctness on byte strings; authenticity as a cryptographic assumption). The model functions are in
-   Model/Floodgate.v: impl_read_hostname = today's ReadHostname (panics on a nonce that is not 12 bytes),
-   spec_read_hostname = the same with that length checked; floodgate_encode / floodgate_decode = Floodgate's
+   Model/Floodgate.v: impl_read_hostname = today's ReadHostname (nonce length checked since commit 6b22eb8),
+   spec_read_hostname = what the property demands (the same function, C39_impl_is_spec), prefix_read_hostname = the
+   code before that commit (panicked on a nonce that is not 12 bytes: finding C39-1, fixed); floodgate_encode / floodgate_decode = Floodgate's
    own (Java) encoder and decoder. *)
 From Coq Require Import List NArith ZArith.
 From Verif Require Import Base.Hex Base.Base64 Base.Decimal Model.Floodgate Proofs.C39.
@@ -31,7 +32,7 @@ Theorem C39_roundtrip_in :
   forall k iv d h sfx,
   wf_bytes iv -> length iv = 12%nat -> valid_data d -> contains 0 h = false -> port_suffix sfx ->
   impl_read_hostname open k (floodgate_encode seal k iv h (bedrock_fields d) ++ sfx) = Ok (h, d).
-Proof. intros seal open H1 H2. exact (roundtrip_in seal open H1 H2 false). Qed.
+Proof. intros seal open H1 H2. exact (roundtrip_in seal open H1 H2 true). Qed.
 Print Assumptions C39_roundtrip_in.
 
 (* "data the proxy encodes is decoded by Floodgate's decoder to the same fields": WriteHostname emits
@@ -56,7 +57,7 @@ Theorem C39_tamper :
   (forall k iv c p, open k iv c = Some p -> issued k iv c) ->
   forall k x h d, impl_read_hostname open k x = Ok (h, d) ->
   exists iv c, envelope_of x = Some (iv, c) /\ length iv = 12%nat /\ issued k iv c.
-Proof. intros open issued A. exact (tamper open issued A false). Qed.
+Proof. intros open issued A. exact (tamper open issued A true). Qed.
 Print Assumptions C39_tamper.
 
 (* the same with the premise in the form "only sealed ciphertexts open" *)
@@ -65,11 +66,11 @@ Theorem C39_tamper_seal_form :
   (forall k iv c p, open k iv c = Some p -> c = seal k iv p) ->
   forall k x h d, impl_read_hostname open k x = Ok (h, d) ->
   exists iv p, envelope_of x = Some (iv, seal k iv p) /\ length iv = 12%nat.
-Proof. intros seal open A. exact (tamper_seal_form seal open A false). Qed.
+Proof. intros seal open A. exact (tamper_seal_form seal open A true). Qed.
 Print Assumptions C39_tamper_seal_form.
 
 (* altered: if (iv0, c0) is the only pair issued under k, a hostname whose DECODED nonce or ciphertext
-   differs is never accepted (it is an error or, for a wrong nonce length, today's panic) *)
+   differs is never accepted *)
 Theorem C39_altered_rejected :
   forall (open : bytes -> bytes -> bytes -> option bytes) (issued : bytes -> bytes -> bytes -> Prop),
   (forall k iv c p, open k iv c = Some p -> issued k iv c) ->
@@ -77,7 +78,7 @@ Theorem C39_altered_rejected :
   (forall iv' c', issued k iv' c' -> iv' = iv0 /\ c' = c0) ->
   envelope_of x = Some (iv, c) -> (iv <> iv0 \/ c <> c0) ->
   forall r, impl_read_hostname open k x <> Ok r.
-Proof. intros open issued A. exact (tamper_single open issued A false). Qed.
+Proof. intros open issued A. exact (tamper_single open issued A true). Qed.
 Print Assumptions C39_altered_rejected.
 
 (* another key: nothing was issued under k' *)
@@ -85,7 +86,7 @@ Theorem C39_other_key_rejected :
   forall (open : bytes -> bytes -> bytes -> option bytes) (issued : bytes -> bytes -> bytes -> Prop),
   (forall k iv c p, open k iv c = Some p -> issued k iv c) ->
   forall k' x, (forall iv c, ~ issued k' iv c) -> forall r, impl_read_hostname open k' x <> Ok r.
-Proof. intros open issued A. exact (other_key open issued A false). Qed.
+Proof. intros open issued A. exact (other_key open issued A true). Qed.
 Print Assumptions C39_other_key_rejected.
 
 (* why "altered in any byte" is read as "altering the decoded nonce or ciphertext": Base64 decoding (Go's
@@ -95,25 +96,28 @@ Theorem C39_b64_malleable : exists x x' : bytes, x <> x' /\ b64_decode x = b64_d
 Proof. exact b64_malleable. Qed.
 Print Assumptions C39_b64_malleable.
 
-(* "rejected without crashing": holds for the specification ... *)
-Theorem C39_no_crash_spec : forall open k x, spec_read_hostname open k x <> Panic.
-Proof. exact spec_never_panics. Qed.
-Print Assumptions C39_no_crash_spec.
+(* "rejected without crashing": today's code never panics, whatever the hostname, key and cipher *)
+Theorem C39_impl_is_spec : forall open k x, impl_read_hostname open k x = spec_read_hostname open k x.
+Proof. exact read_hostname_impl_is_spec. Qed.
+Theorem C39_no_crash : forall open k x, impl_read_hostname open k x <> Panic.
+Proof. exact impl_never_panics. Qed.
+Print Assumptions C39_no_crash.
 
-(* ... and is refuted for the code as it is (finding C39-1): a 3-byte nonce makes gcm.Open panic,
-   whatever the key and whatever AES-GCM does *)
-Theorem C39_no_crash_refuted : forall open k,
-  trigger_bad_iv crash_hostname = true /\ impl_read_hostname open k crash_hostname = Panic.
-Proof. exact impl_panics_refuted. Qed.
-Print Assumptions C39_no_crash_refuted.
+(* about the PRE-fix code (finding C39-1, repaired by commit 6b22eb8): a 3-byte nonce made gcm.Open panic,
+   whatever the key and whatever AES-GCM does; today's code returns an error on the same input *)
+Theorem C39_prefix_no_crash_refuted : forall open k,
+  trigger_bad_iv crash_hostname = true /\ prefix_read_hostname open k crash_hostname = Panic /\
+  impl_read_hostname open k crash_hostname = Err.
+Proof. exact prefix_panics_refuted. Qed.
+Print Assumptions C39_prefix_no_crash_refuted.
 
-(* the trigger is exact, and off the trigger the code is the specification *)
-Theorem C39_impl_panics_iff : forall open k x, impl_read_hostname open k x = Panic <-> trigger_bad_iv x = true.
-Proof. exact impl_panics_iff. Qed.
-Theorem C39_impl_eq_spec_off_trigger : forall open k x, trigger_bad_iv x = false ->
-  impl_read_hostname open k x = spec_read_hostname open k x.
-Proof. exact impl_eq_spec_off_trigger. Qed.
-Print Assumptions C39_impl_eq_spec_off_trigger.
+(* the pre-fix trigger was exact, and off the trigger the pre-fix code already was the specification *)
+Theorem C39_prefix_panics_iff : forall open k x, prefix_read_hostname open k x = Panic <-> trigger_bad_iv x = true.
+Proof. exact prefix_panics_iff. Qed.
+Theorem C39_prefix_eq_spec_off_trigger : forall open k x, trigger_bad_iv x = false ->
+  prefix_read_hostname open k x = spec_read_hostname open k x.
+Proof. exact prefix_eq_spec_off_trigger. Qed.
+Print Assumptions C39_prefix_eq_spec_off_trigger.
 
 (* Non-vacuity: the AEAD premises are satisfiable (toy AEAD whose tag is the key), the record premises
    are met by a concrete record, and on it the model decodes to the record / rejects another key. *)
